@@ -1,15 +1,16 @@
 #!/bin/bash
-# Mutation self-test of bigintgen + Proofs/BigIntRoutinesEq.v.
+# Mutation self-test of bigintgen + Proofs/BigIntEq*.v (nine lemma files).
 # Works on scratch copies only (/tmp/bgrepo, /tmp/bgself); never touches /repo
 # or /verif/coq.  For each mutant: copy /repo, apply ONE textual change inside
 # one Go function, regenerate into the scratch tree, compile the generated file
-# and the equality lemmas there, report which lemma fails.
+# and each of the nine lemma files there, report which files / lemmas fail.
 set -u
 export GOFLAGS=-mod=mod GOPROXY=off GOSUMDB=off GOTOOLCHAIN=local
 BIN=/verif/_build/bin/bigintgen
 R=/tmp/bgrepo
 S=/tmp/bgself
 C=/verif/coq
+FILES="Utils Compress Member Add Keys Sign Verify Codec Hash"   # dependency order
 
 setup_tree() {
   rm -rf $S; mkdir -p $S/coq/Gen $S/coq/Proofs
@@ -17,16 +18,18 @@ setup_tree() {
   for f in $C/Gen/*; do
     case $(basename $f) in BigIntRoutines.*) ;; *) ln -s $f $S/coq/Gen/ ;; esac
   done
-  # the final file has no Default Timeout; the self-test wants quick failures
-  sed 's/^Local Open Scope Z_scope\.$/Local Open Scope Z_scope. Set Default Timeout 60./' \
-    $C/Proofs/BigIntRoutinesEq.v > $S/coq/Proofs/BigIntRoutinesEq.v
+  # the final files have no Default Timeout; the self-test wants quick failures
+  for f in $FILES; do
+    sed 's/^Local Open Scope Z_scope\.$/Local Open Scope Z_scope. Set Default Timeout 60./' \
+      $C/Proofs/BigIntEq$f.v > $S/coq/Proofs/BigIntEq$f.v
+  done
 }
 
 # mutate <file> <function header substring> <old> <new>: replace the FIRST
 # occurrence of <old> after the function header; fails if not found inside
 # that function.
 mutate() {
-  python3 - "$R/$1" "$2" "$3" "$4" <<'EOF'
+  python3 - "$R/$1" "$2" "$3" "$4" <<'PYEOF'
 import sys
 path, hdr, old, new = sys.argv[1:5]
 s = open(path).read()
@@ -37,14 +40,20 @@ if end < 0: end = len(s)
 assert j < end, "pattern not inside the function"
 s = s[:j] + new + s[j+len(old):]
 open(path, "w").write(s)
-EOF
+PYEOF
 }
 
-run() { # label
+# run <label>: regenerate, compile the generated file, then each of the nine
+# lemma files in dependency order.  FAILS = a lemma of that file does not hold
+# any more; blocked = the file needs the lemmas of a file that failed.
+run() {
   local label="$1"
   echo "== $label"
   $BIN $R $S > $S/gen.out 2> $S/gen.err; local rc=$?
-  if [ $rc -ne 0 ]; then
+  if [ $rc -eq 3 ]; then
+    echo "   bigintgen: EXIT 3, markers: $(grep -o '[A-Za-z0-9_]*__TRANSLATION_FAILED' $S/coq/Gen/BigIntRoutines.v | sort -u | tr '\n' ' ')"
+    echo "   first message: $(head -1 $S/gen.err | cut -c1-250)"
+  elif [ $rc -ne 0 ]; then
     echo "   bigintgen: EXIT $rc -- $(head -1 $S/gen.err)"; return
   fi
   if diff -q $C/Gen/BigIntRoutines.v $S/coq/Gen/BigIntRoutines.v >/dev/null; then
@@ -54,15 +63,21 @@ run() { # label
   fi
   ( cd $S/coq
     timeout 600 coqc -Q . Verif Gen/BigIntRoutines.v > /dev/null 2> $S/err.txt || { echo "   Gen/BigIntRoutines.v: FAILS TO COMPILE: $(grep -m1 -A3 Error $S/err.txt | tr '\n' ' ')"; exit; }
-    local t0=$(date +%s.%N)
-    if timeout 900 coqc -Q . Verif Proofs/BigIntRoutinesEq.v > /dev/null 2> $S/err.txt; then
-      echo "   Proofs/BigIntRoutinesEq.v: COMPILES"
-    else
-      local line=$(grep -m1 -o 'line [0-9]*' $S/err.txt | cut -d' ' -f2)
-      local lemma=$(head -n "$line" Proofs/BigIntRoutinesEq.v | grep -o '^ *Lemma [A-Za-z0-9_]*' | tail -1)
-      printf "   Proofs/BigIntRoutinesEq.v: FAILS at line %s (%s) after %.1fs: %s\n" "$line" "$lemma" \
-        "$(echo "$(date +%s.%N) - $t0" | bc)" "$(grep -A2 Error $S/err.txt | tr '\n' ' ' | cut -c1-220)"
-    fi )
+    okl=""
+    for f in $FILES; do
+      t0=$(date +%s.%N)
+      if timeout 900 coqc -Q . Verif Proofs/BigIntEq$f.v > /dev/null 2> $S/err.txt; then
+        okl="$okl $f"
+      elif grep -q "Cannot find a physical path\|Unable to locate library\|Cannot find library" $S/err.txt; then
+        echo "   BigIntEq$f.v: blocked (requires $(tr '\n' ' ' < $S/err.txt | grep -o 'path Proofs.BigIntEq[A-Za-z]*' | head -1 | sed 's/.*BigIntEq/BigIntEq/')"
+      else
+        line=$(grep -m1 -o 'line [0-9]*' $S/err.txt | cut -d' ' -f2)
+        lemma=$(head -n "$line" Proofs/BigIntEq$f.v | grep -o '^ *Lemma [A-Za-z0-9_]*' | tail -1 | sed 's/^ *Lemma //')
+        printf "   BigIntEq%s.v: FAILS at line %s (%s) after %.1fs: %s\n" "$f" "$line" "$lemma" \
+          "$(echo "$(date +%s.%N) - $t0" | bc)" "$(grep -A2 Error $S/err.txt | tr '\n' ' ' | cut -c1-150)"
+      fi
+    done
+    echo "   compile:$okl" )
 }
 
 fresh() { rm -rf $R; cp -r /repo $R; setup_tree; }
